@@ -997,7 +997,7 @@ int main(int argc, char** argv) {
   e.run = run;
   e.process_init = process_init;
   e.quick_runs = 120000;
-  e.thorough_runs = 2500000;
+  e.thorough_runs = 2000000;
   e.quick_cap_s = 150;
   e.thorough_cap_s = 1700;
   e.rule =
